@@ -774,7 +774,12 @@ def c14_dry(p0: bool, t0: int, p1: bool, t1: int, p2: bool, t2: int, p3: bool, t
     # ---- (2) the physical plan executed by itself (every node, no registry) vs the real run
     del wa.log[:]
     nodes = _nodes_of(pplan)
+    snap0 = snap_plan(pplan)
     ea = call_run(None, pplan, output=[onode, nodes])
+    # (C13) the plan a dry run returned is the caller's plan like any other: executing it must leave it exactly as it was
+    dchg = diff_plan(snap0, snap_plan(pplan))
+    if dchg is not None:
+        return _fail("running the dry-run plan modified it: " + str(dchg))
     eb = call_run(outb, B.plan, registry=B.reg, output=outb, fresh_time=fresh, **kwb)
     if isinstance(ea, str):
         return _fail("executing the dry-run plan: " + ea)
